@@ -1,6 +1,81 @@
 import YaegiVerif.Common.Sexp
-/- Line-protocol front end for C14 (glue). Placeholder until the property's model exists. -/
+import YaegiVerif.Common.Str
+import YaegiVerif.Model.Bind
+import YaegiVerif.Expected.C14
+/- Line-protocol front end for C14 (glue, not a proof obligation).
+   chk PKG (KEY FORM QUAL SEL TOK VAL) (NAME KIND CK VAL SKIP)
+        → n=<0|1> f=<0|1> v=<0|1> r=<0|1> c=<0|1>   nameOk, formOk, valueOk of Model/Bind.lean on this pair (with
+                                              the expected replacement table), whether the name is accepted as a
+                                              documented replacement, membership in the class float-const-rounded
+        v: the literal is what the model of fixConst (`asBuilt`) yields for the reference value; x: it is the exact value
+   round VAL → a=<VAL>   the value of the literal fixConst emits for a constant of that value (`asBuilt`)
+   code TEXT → the code of a name (decimal)
+   VAL  = none | int:<decimal> | rat:<num>/<den> | str:<text> | bool:<true|false>
+   texts are atoms (quoted when needed); QUAL is the import path or "" -/
 namespace YaegiVerif.Driver.C14
-open YaegiVerif
-def handle (_args : List Sexp) : String := "unimplemented"
+open YaegiVerif YaegiVerif.Bind
+
+def codeOf (s : String) : Nat := encBytes (s.toUTF8.toList.map (·.toNat))
+
+def parseForm : String → Form
+  | "value" => .value | "addr" => .addr | "typ" => .typ | "lit" => .lit | "wrap" => .wrap | _ => .other
+
+def parseTok : String → Tok
+  | "" => .none | "INT" => .int | "FLOAT" => .float | "STRING" => .string | "CHAR" => .char | "IMAG" => .imag | _ => .other
+
+def parseKind : String → Option Kind
+  | "func" => some .func | "var" => some .var | "type" => some .type | "const" => some .const | "builtin" => some .builtin | _ => none
+
+def parseCK : String → CKind
+  | "typed" => .typed | "int" => .int | "rune" => .rune | "float" => .float | "string" => .string | "bool" => .bool | "complex" => .complex | _ => .na
+
+def signed (cs : List Char) : Option (Bool × Nat) :=
+  match cs with
+  | '-' :: ds => (String.ofList ds).toNat?.map fun n => (true, n)
+  | ds => (String.ofList ds).toNat?.map fun n => (false, n)
+
+def parseVal (s : String) : CVal :=
+  let cs := s.toList
+  if Str.hasPrefix "int:".toList cs then
+    match signed (cs.drop 4) with
+    | some (neg, n) => .int neg n
+    | none => .none
+  else if Str.hasPrefix "rat:".toList cs then
+    match Str.splitOn '/' (cs.drop 4) with
+    | [a, b] =>
+      (match signed a, (String.ofList b).toNat? with
+       | some (neg, n), some d => .rat neg n d
+       | _, _ => .none)
+    | _ => .none
+  else if Str.hasPrefix "str:".toList cs then .str (codeOf (String.ofList (cs.drop 4)))
+  else if s == "bool:true" then .bool true
+  else if s == "bool:false" then .bool false
+  else .none
+
+def showVal : CVal → String
+  | .none => "none"
+  | .int neg n => s!"int:{if neg then "-" else ""}{n}"
+  | .rat neg n d => s!"rat:{if neg then "-" else ""}{n}/{d}"
+  | .str c => s!"strcode:{c}"
+  | .bool b => s!"bool:{b}"
+
+def qualCode (s : String) : Nat := if s.isEmpty then 0 else codeOf s
+
+def b01 (b : Bool) : String := if b then "1" else "0"
+
+def handle (args : List Sexp) : String :=
+  match args with
+  | [.atom "chk", .atom pkg, .list [.atom key, .atom form, .atom qual, .atom sel, .atom tok, .atom val],
+      .list [.atom name, .atom kind, .atom ck, .atom rval, skip]] =>
+    (match parseKind kind, skip.bool? with
+     | some k, some sk =>
+       let e : Entry := ⟨codeOf key, parseForm form, qualCode qual, if sel.isEmpty then 0 else codeOf sel, parseTok tok, parseVal val⟩
+       let o : RefObj := ⟨codeOf name, k, parseCK ck, parseVal rval, sk, false⟩
+       let p := codeOf pkg
+       s!"n={b01 (nameOk Expected.C14.repls p e)} f={b01 (if e.form == .wrap then k == .type && !sk && decBytes e.key == 95 :: decBytes o.name else e.key == o.name && formOkAsBuilt e o)} v={b01 (if e.form == .lit then e.val != .none && e.val == asBuilt o.val else true)} x={b01 (valueOk e o)} r={b01 (replOk Expected.C14.repls p e)} c={b01 (inClass Expected.C14.floatRounded p e.key)}"
+     | _, _ => "bad-op")
+  | [.atom "round", .atom v] => s!"a={showVal (asBuilt (parseVal v))}"
+  | [.atom "code", .atom t] => s!"{codeOf t}"
+  | _ => "bad-op"
+
 end YaegiVerif.Driver.C14
